@@ -371,12 +371,12 @@ Lemma reserve_internal_safe rz w bytes p :
 Proof.
   intros S. unfold reserve_internal.
   pose proof (advance_phase_safe w p S) as HA. destruct (advance_phase w p) as [w1 ok].
-  destruct HA as ((S1 & S2 & S3 & S4) & [B1 B2]).
+  destruct HA as (SS & BB).
   destruct (negb ok || (bytes =? 0)).
-  - splits; try assumption; try (unfold safe_inv; splits; assumption). left; reflexivity.
-  - unfold reserve_internal_buffer_space.
+  - splits; try assumption. left; reflexivity.
+  - destruct SS as (S1 & S2 & S3 & S4). destruct BB as [B1 B2]. unfold reserve_internal_buffer_space.
     destruct (N.ltb_spec (allocStart w1) (tableEnd w1 + (bytes + 2 * rz))).
-    + unfold safe_inv, same_bounds, set_failed; psimpl. splits; fin. left; reflexivity.
+    + unfold safe_inv, same_bounds, set_failed, entry_safe; psimpl. splits; fin.
     + unfold safe_inv, same_bounds, set_alloc, entry_safe; psimpl. splits; fin.
       right. exists (allocStart w1 - (bytes + 2 * rz) + rz). splits; fin.
 Qed.
@@ -402,11 +402,12 @@ Proof.
     { destruct (phase_rank (ph w) <? 1); [ apply advance_phase_safe; exact S | ].
       split; [ exact S | split; reflexivity ]. }
     destruct (if phase_rank (ph w) <? 1 then advance_phase w PhInitOnce else (w, true)) as [w1 ok].
-    destruct HA as ((S1 & S2 & S3 & S4) & [B1 B2]).
+    destruct HA as (SS & BB).
     destruct (negb ok).
-    + splits; try (unfold safe_inv; splits; assumption); try assumption.
+    + splits; try assumption.
       constructor; [ left; reflexivity | constructor ].
-    + destruct (N.ltb_spec (allocStart w1) (tableEnd w1 + n)).
+    + destruct SS as (S1 & S2 & S3 & S4). destruct BB as [B1 B2].
+      destruct (N.ltb_spec (allocStart w1) (tableEnd w1 + n)).
       * unfold safe_inv, same_bounds, set_failed; psimpl. splits; fin. constructor; [ left; reflexivity | constructor ].
       * unfold safe_inv, same_bounds, set_tableEnd; psimpl. splits; fin.
         constructor; [ | constructor ]. right. exists (tableEnd w1). psimpl. splits; fin.
@@ -432,14 +433,14 @@ Proof.
     destruct (reserve_internal rz w n PhBuffers) as [w1 r].
     destruct H as (S' & SB & E). splits; try assumption. constructor; [ exact E | constructor ].
   - destruct S as (S1 & S2 & S3 & S4).
-    unfold clear, safe_inv, same_bounds, initialAllocStart; psimpl. splits; fin. constructor.
+    unfold clear, safe_inv, same_bounds, initialAllocStart; psimpl. splits; fin; try constructor.
   - destruct S as (S1 & S2 & S3 & S4).
-    unfold clear_tables, set_tableEnd, safe_inv, same_bounds; psimpl. splits; fin. constructor.
+    unfold clear_tables, set_tableEnd, safe_inv, same_bounds; psimpl. splits; fin; try constructor.
   - destruct S as (S1 & S2 & S3 & S4).
-    unfold mark_tables_dirty, set_tableValidEnd, safe_inv, same_bounds; psimpl. splits; fin. constructor.
+    unfold mark_tables_dirty, set_tableValidEnd, safe_inv, same_bounds; psimpl. splits; fin; try constructor.
   - destruct S as (S1 & S2 & S3 & S4).
     unfold mark_tables_clean. destruct (tableValidEnd w <? tableEnd w);
-    unfold set_tableValidEnd, safe_inv, same_bounds; psimpl; splits; fin; constructor.
+    unfold set_tableValidEnd, safe_inv, same_bounds; psimpl; splits; fin; try constructor.
 Qed.
 
 Theorem run_safe rz : forall ops w,
@@ -447,11 +448,11 @@ Theorem run_safe rz : forall ops w,
   safe_inv w' /\ same_bounds w w' /\ Forall (entry_safe w) log.
 Proof.
   induction ops as [ | o rest IH]; intros w S; cbn [run].
-  - splits; try assumption; try reflexivity. constructor.
+  - split; [ assumption | split; [ split; reflexivity | constructor ] ].
   - pose proof (step_safe rz w o S) as H1. destruct (step rz w o) as [w1 l1].
     destruct H1 as (S1 & [B1 B2] & L1).
     specialize (IH w1 S1). destruct (run rz w1 rest) as [w2 l2]. destruct IH as (S2 & [C1 C2] & L2).
-    splits; try assumption; try congruence.
+    split; [ exact S2 | ]. split; [ split; congruence | ].
     apply Forall_app. split; [ exact L1 | ].
     eapply Forall_impl; [ | exact L2 ]. intros e [Z | (p & E1 & E2 & E3)]; [ left; exact Z | right ].
     exists p. rewrite <- B1, <- B2. splits; assumption.
